@@ -50,7 +50,8 @@ def run(res, tier, seed):
                 res.disagreements.append({"op": r["codes"][step], "input": {"history": r["codes"][: step + 1], "seed": [seed, hid]}, "impl": a, "model": mods[step]})
                 break
         for label, w, code in r["wf"]:
-            res.violations.append({"key": {"op": label.split(":")[-1], "part": "well-formed"}, "what": "an object reachable through the API is not well formed: " + w,
+            res.violations.append({"key": {"op": label.split(":")[-1], "part": "well-formed", "zero_span_default_support": w.startswith("zero-span")},
+                                   "what": "an object reachable through the API is not well formed: " + w,
                                    "input": {"history": r["codes"], "seed": [seed, hid], "at": label}})
         for label, e in r["exc"]:
             # an exception produces no object: outside C04's statement (well-formedness of what IS produced); counted for the record
